@@ -100,6 +100,8 @@ pub assume_specification[ f64::ceil ](x: f64) -> (r: f64) ensures fv(r) == fv_ma
 pub assume_specification[ f64::round ](x: f64) -> (r: f64) ensures fv(r) == fv_map(fv(x), |v: real| real_round(v));
 pub assume_specification[ f64::abs ](x: f64) -> (r: f64) ensures r == f_abs(x);
 pub assume_specification[ f64::to_bits ](x: f64) -> (r: u64) ensures r == f_bits(x);
+// IEEE-754 binary64 encodings of the infinities
+pub broadcast axiom fn f_bits_inf(x: f64) ensures fv(x) is PosInf ==> #[trigger] f_bits(x) == 0x7FF0000000000000u64, fv(x) is NegInf ==> f_bits(x) == 0xFFF0000000000000u64;
 pub assume_specification[ f64::div_euclid ](x: f64, y: f64) -> (r: f64) ensures r == f_div_euclid(x, y);
 pub assume_specification[ f64::rem_euclid ](x: f64, y: f64) -> (r: f64) ensures r == f_rem_euclid(x, y);
 pub assume_specification[ f64::powi ](x: f64, n: i32) -> (r: f64) ensures r == f_powi(x, n);
